@@ -241,6 +241,13 @@ func c11CheckConst(o *Object, kind string, v uint64, what string) error {
 	return nil
 }
 
+// c11PathOf / c11NameToPath describe the namespace view of the case being
+// checked (object index -> path, unique name -> path); set by c11Run.
+var (
+	c11PathOf     map[uint32]string
+	c11NameToPath map[string]string
+)
+
 func c11CheckData(tree *ObjectTree, o *Object, d *amlData, what string) error {
 	switch d.K {
 	case "zero", "one", "ones", "byte", "word", "dword", "qword":
@@ -265,6 +272,15 @@ func c11CheckData(tree *ObjectTree, o *Object, d *amlData, what string) error {
 		}
 		if got, ok := args[1].value.([]byte); args[1].opcode != pOpIntByteList || !ok || !bytes.Equal(got, d.bytes()) {
 			return fmt.Errorf("%s: buffer initialiser (%d bytes) differs from the %d bytes the program encodes", what, len(got), len(d.bytes()))
+		}
+	case "nameref":
+		// a package element that names another object: bound to exactly that object
+		idx, ok := o.value.(uint32)
+		if o.opcode != pOpIntResolvedNamePath || !ok {
+			return fmt.Errorf("%s: reference to %s parsed as %s", what, d.S, pOpcodeName(o.opcode))
+		}
+		if want := c11NameToPath[string(d.S)]; c11PathOf[idx] != want || want == "" {
+			return fmt.Errorf("%s: reference to %s resolved to %q, want %q", what, d.S, c11PathOf[idx], want)
 		}
 	case "package":
 		if o.opcode != pOpPackage {
@@ -548,7 +564,7 @@ func c11CheckExpr(tree *ObjectTree, o *Object, e *amlExpr, paths map[uint32]stri
 
 type c11Stats struct {
 	scopeDirectives, relocated, callsWithArgs, forwardCalls, nestedCalls, nonMinimalPkg, deferred int
-	tables, hugePkg, miscStmts, miscExprs, methodDecls, rootScopes                             int
+	tables, hugePkg, miscStmts, miscExprs, methodDecls, rootScopes, pkgRefs                    int
 }
 
 func c11Run(c c11Case) (fail *vlib.Failure, errLog string) {
@@ -609,6 +625,11 @@ func c11Run(c c11Case) (fail *vlib.Failure, errLog string) {
 			return vlib.Failf("predefined scope %s disappeared from the namespace", p), ""
 		}
 		delete(view, p)
+	}
+	c11PathOf, c11NameToPath = map[uint32]string{}, map[string]string{}
+	for p, o := range view {
+		c11PathOf[o.index] = p
+		c11NameToPath[string(o.name[:])] = p
 	}
 	var paths []string
 	for p := range expect {
